@@ -239,6 +239,10 @@ class Body:
                 pl = s["place"]
                 if not pl["p"]:
                     defs[pl["l"]].append((bi, si))
+                elif pl["p"][0]["k"] == "deref" and 1 <= pl["l"] <= self.arg_count:
+                    # `(*param).f = v`: a write THROUGH a reference parameter changes what it points to, not the parameter (like the `&mut (*x)`
+                    # re-borrows below); reads of it stay positional ($k) and carry the version of the field (rec_place / write_sites)
+                    pass
                 else:
                     partial[pl["l"]].append((bi, si))
                 rv = s["rv"]
